@@ -18,7 +18,7 @@ from common import coq_failing, rng_for, CoqError, g_list, g_bool
 
 DTYPES = [('lv_universe', 'V1', ['a', 'b']), ('lv_universe', 'V2', ['x']), ('lv_universe', 'V', ['x']),
           ('lv_universe', 'VV', ['x']), ('lv_universe', 'VPost', ['x']), ('lv_universe', 'V0', []), ('lv_universe', 'VInh', ['a', 'b', 'c']),
-          ('lv_universe', 'VUnder', ['_hidden', 'x_'])]
+          ('lv_universe', 'VUnder', ['_hidden', 'x_']), ('lv_universe', 'VNoneRet', ['x'])]
 
 
 def gen_task(rng, depth=0):
@@ -151,6 +151,13 @@ def monitor(tasks, text, text2):
                 return ('missing-parameter', f'parameter {f.name} of {ty.__name__} is not listed')
         if not any(l.startswith(f'{ty.__name__} : run()') for l in lines):
             return ('missing-run', f'run signature of {ty.__name__} is not listed')
+        # the run line says what run() is declared to return: nothing when it is not annotated, the hint otherwise
+        import typing
+        ret = typing.get_type_hints(ty.run).get('return')
+        want_line = f'{ty.__name__} : run()' + ('' if ret is None else ' ' + _fmt(ret))
+        run_lines = [l for l in lines if l.startswith(f'{ty.__name__} : run()')]
+        if run_lines != [want_line.strip()]:
+            return ('run-signature', f'run signature of {ty.__name__} is shown as {run_lines}, run() is declared as {want_line!r}')
     return None
 
 
